@@ -7,38 +7,351 @@ import EV.Proofs.CodecTx
 namespace EV.Proofs.CodecBlock
 open EV EV.Codec EV.Proofs.CodecPrim EV.Proofs.CodecTx
 
-theorem fullParams_lawful : Lawful FullParams.dec FullParams.enc FullParams.wf := by sorry
-theorem params_lawful : Lawful Params.dec Params.enc Params.wf := by sorry
+theorem or_hi (v : Nat) (h : v < 2^31) : v ||| 0x80000000 = v + 2^31 := by
+  have e : (0x80000000 : Nat) = 2^31 * 1 := by decide
+  have := Nat.two_pow_add_eq_or_of_lt h 1
+  rw [e, Nat.or_comm, ← this]; omega
+
+theorem fullParams_lawful : Lawful FullParams.dec FullParams.enc FullParams.wf := by
+  refine ⟨?_, ?_, ?_⟩
+  · intro bs v rest h
+    simp only [FullParams.dec] at h
+    rcases h1 : bytesVec bs with ⟨s, r1⟩ | e | s' <;> rw [h1] at h <;> simp only [reduceCtorEq] at h
+    rcases h2 : le 4 r1 with ⟨l, r2⟩ | e | s' <;> rw [h2] at h <;> simp only [reduceCtorEq] at h
+    rcases h3 : bytesVec r2 with ⟨fp, r3⟩ | e | s' <;> rw [h3] at h <;> simp only [reduceCtorEq] at h
+    rcases h4 : bytesVec r3 with ⟨fs, r4⟩ | e | s' <;> rw [h4] at h <;> simp only [reduceCtorEq] at h
+    rcases h5 : bytesVecVec r4 with ⟨ext, r5⟩ | e | s' <;> rw [h5] at h <;> simp only [reduceCtorEq] at h
+    simp only [Res.ok.injEq, Prod.mk.injEq] at h
+    obtain ⟨rfl, rfl⟩ := h
+    obtain ⟨e1, w1⟩ := bytesVec_lawful.sound _ _ _ h1
+    obtain ⟨e2, w2⟩ := (le_lawful 4).sound _ _ _ h2
+    obtain ⟨e3, w3⟩ := bytesVec_lawful.sound _ _ _ h3
+    obtain ⟨e4, w4⟩ := bytesVec_lawful.sound _ _ _ h4
+    obtain ⟨e5, w5⟩ := bytesVecVec_lawful.sound _ _ _ h5
+    refine ⟨?_, w1, w2, w3, w4, w5⟩
+    simp only [FullParams.enc, List.append_assoc]
+    rw [e1, e2, e3, e4, e5]
+  · intro v r ⟨w1, w2, w3, w4, w5⟩
+    simp only [FullParams.dec, FullParams.enc, List.append_assoc]
+    rw [bytesVec_lawful.complete _ _ w1]; simp only
+    rw [(le_lawful 4).complete _ _ w2]; simp only
+    rw [bytesVec_lawful.complete _ _ w3]; simp only
+    rw [bytesVec_lawful.complete _ _ w4]; simp only
+    rw [bytesVecVec_lawful.complete _ _ w5]
+  · intro bs s h
+    simp only [FullParams.dec] at h
+    rcases h1 : bytesVec bs with ⟨s, r1⟩ | e | s' <;> rw [h1] at h <;> simp only [reduceCtorEq] at h
+    case panic => exact bytesVec_lawful.total _ _ h1
+    rcases h2 : le 4 r1 with ⟨l, r2⟩ | e | s' <;> rw [h2] at h <;> simp only [reduceCtorEq] at h
+    case panic => exact (le_lawful 4).total _ _ h2
+    rcases h3 : bytesVec r2 with ⟨fp, r3⟩ | e | s' <;> rw [h3] at h <;> simp only [reduceCtorEq] at h
+    case panic => exact bytesVec_lawful.total _ _ h3
+    rcases h4 : bytesVec r3 with ⟨fs, r4⟩ | e | s' <;> rw [h4] at h <;> simp only [reduceCtorEq] at h
+    case panic => exact bytesVec_lawful.total _ _ h4
+    rcases h5 : bytesVecVec r4 with ⟨ext, r5⟩ | e | s' <;> rw [h5] at h <;> simp only [reduceCtorEq] at h
+    exact bytesVecVec_lawful.total _ _ h5
+
+theorem params_lawful : Lawful Params.dec Params.enc Params.wf := by
+  refine ⟨?_, ?_, ?_⟩
+  · intro bs v rest h
+    cases bs with
+    | nil => simp only [Params.dec, reduceCtorEq] at h
+    | cons t r0 =>
+      simp only [Params.dec] at h
+      split at h
+      · rename_i ht; subst ht
+        simp only [Res.ok.injEq, Prod.mk.injEq] at h
+        obtain ⟨rfl, rfl⟩ := h
+        exact ⟨rfl, trivial⟩
+      · split at h
+        · rename_i ht; subst ht
+          rcases h1 : bytesVec r0 with ⟨s, r1⟩ | e | s' <;> rw [h1] at h <;> simp only [reduceCtorEq] at h
+          rcases h2 : le 4 r1 with ⟨l, r2⟩ | e | s' <;> rw [h2] at h <;> simp only [reduceCtorEq] at h
+          rcases h3 : take 32 r2 with ⟨el, r3⟩ | e | s' <;> rw [h3] at h <;> simp only [reduceCtorEq] at h
+          simp only [Res.ok.injEq, Prod.mk.injEq] at h
+          obtain ⟨rfl, rfl⟩ := h
+          obtain ⟨e1, w1⟩ := bytesVec_lawful.sound _ _ _ h1
+          obtain ⟨e2, w2⟩ := (le_lawful 4).sound _ _ _ h2
+          obtain ⟨e3, w3⟩ := (take_lawful 32).sound _ _ _ h3
+          refine ⟨?_, w1, w2, w3⟩
+          simp only [Params.enc, List.append_assoc, List.cons_append, List.nil_append]
+          rw [e1, e2, e3]
+        · split at h
+          · rename_i ht; subst ht
+            rcases h1 : FullParams.dec r0 with ⟨f, r1⟩ | e | s' <;> rw [h1] at h <;> simp only [reduceCtorEq] at h
+            simp only [Res.ok.injEq, Prod.mk.injEq] at h
+            obtain ⟨rfl, rfl⟩ := h
+            obtain ⟨e1, w1⟩ := fullParams_lawful.sound _ _ _ h1
+            refine ⟨?_, w1⟩
+            simp only [Params.enc, List.cons_append, List.nil_append]
+            rw [e1]
+          · cases h
+  · intro v r hw
+    cases v with
+    | null => simp [Params.dec, Params.enc]
+    | compact s l e =>
+      obtain ⟨w1, w2, w3⟩ := hw
+      have d0 : ¬ ((1 : UInt8) = 0) := by decide
+      simp only [Params.dec, Params.enc, List.append_assoc, List.cons_append, List.nil_append,
+        if_neg d0, if_true]
+      rw [bytesVec_lawful.complete _ _ w1]; simp only
+      rw [(le_lawful 4).complete _ _ w2]; simp only
+      rw [(take_lawful 32).complete _ _ w3]
+    | full f =>
+      have d0 : ¬ ((2 : UInt8) = 0) := by decide
+      have d1 : ¬ ((2 : UInt8) = 1) := by decide
+      simp only [Params.dec, Params.enc, List.cons_append, List.nil_append,
+        if_neg d0, if_neg d1, if_true]
+      rw [fullParams_lawful.complete _ _ hw]
+  · intro bs s h
+    cases bs with
+    | nil => simp only [Params.dec, reduceCtorEq] at h
+    | cons t r0 =>
+      simp only [Params.dec] at h
+      split at h
+      · cases h
+      · split at h
+        · rcases h1 : bytesVec r0 with ⟨s, r1⟩ | e | s' <;> rw [h1] at h <;> simp only [reduceCtorEq] at h
+          case panic => exact bytesVec_lawful.total _ _ h1
+          rcases h2 : le 4 r1 with ⟨l, r2⟩ | e | s' <;> rw [h2] at h <;> simp only [reduceCtorEq] at h
+          case panic => exact (le_lawful 4).total _ _ h2
+          rcases h3 : take 32 r2 with ⟨el, r3⟩ | e | s' <;> rw [h3] at h <;> simp only [reduceCtorEq] at h
+          exact (take_lawful 32).total _ _ h3
+        · split at h
+          · rcases h1 : FullParams.dec r0 with ⟨f, r1⟩ | e | s' <;> rw [h1] at h <;> simp only [reduceCtorEq] at h
+            exact fullParams_lawful.total _ _ h1
+          · cases h
+
+theorem word_dyn (w : Nat) (h : w / 2^31 = 1) : (w % 2^31) ||| 0x80000000 = w := by
+  rw [or_hi _ (Nat.mod_lt _ (by decide))]; omega
+
+theorem word_legacy (w : Nat) (hw : w < 256 ^ 4) (h : ¬ w / 2^31 = 1) : w < 2^31 := by omega
 
 theorem header_sound (bs : Bytes) (h : BlockHeader) (rest : Bytes)
-    (hd : BlockHeader.dec bs = .ok (h, rest)) : bs = h.enc ++ rest ∧ h.wf := by sorry
+    (hd : BlockHeader.dec bs = .ok (h, rest)) : bs = h.enc ++ rest ∧ h.wf := by
+  simp only [BlockHeader.dec] at hd
+  rcases h1 : le 4 bs with ⟨v, r1⟩ | e | s' <;> rw [h1] at hd <;> simp only [reduceCtorEq] at hd
+  rcases h2 : take 32 r1 with ⟨prev, r2⟩ | e | s' <;> rw [h2] at hd <;> simp only [reduceCtorEq] at hd
+  rcases h3 : take 32 r2 with ⟨mr, r3⟩ | e | s' <;> rw [h3] at hd <;> simp only [reduceCtorEq] at hd
+  rcases h4 : le 4 r3 with ⟨time, r4⟩ | e | s' <;> rw [h4] at hd <;> simp only [reduceCtorEq] at hd
+  rcases h5 : le 4 r4 with ⟨height, r5⟩ | e | s' <;> rw [h5] at hd <;> simp only [reduceCtorEq] at hd
+  obtain ⟨e1, w1⟩ := (le_lawful 4).sound _ _ _ h1
+  obtain ⟨e2, w2⟩ := (take_lawful 32).sound _ _ _ h2
+  obtain ⟨e3, w3⟩ := (take_lawful 32).sound _ _ _ h3
+  obtain ⟨e4, w4⟩ := (le_lawful 4).sound _ _ _ h4
+  obtain ⟨e5, w5⟩ := (le_lawful 4).sound _ _ _ h5
+  split at hd
+  · rename_i hdy
+    rcases h6 : Params.dec r5 with ⟨cur, r6⟩ | e | s' <;> rw [h6] at hd <;> simp only [reduceCtorEq] at hd
+    rcases h7 : Params.dec r6 with ⟨prop, r7⟩ | e | s' <;> rw [h7] at hd <;> simp only [reduceCtorEq] at hd
+    rcases h8 : bytesVecVec r7 with ⟨w, r8⟩ | e | s' <;> rw [h8] at hd <;> simp only [reduceCtorEq] at hd
+    simp only [Res.ok.injEq, Prod.mk.injEq] at hd
+    obtain ⟨rfl, rfl⟩ := hd
+    obtain ⟨e6, w6⟩ := params_lawful.sound _ _ _ h6
+    obtain ⟨e7, w7⟩ := params_lawful.sound _ _ _ h7
+    obtain ⟨e8, w8⟩ := bytesVecVec_lawful.sound _ _ _ h8
+    refine ⟨?_, ?_⟩
+    · simp only [BlockHeader.enc, BlockHeader.versionWord, ExtData.isDynafed, ExtData.enc, if_true,
+        List.append_assoc, word_dyn v hdy]
+      rw [e1, e2, e3, e4, e5, e6, e7, e8]
+    · exact ⟨Nat.mod_lt _ (by decide), w2, w3, w4, w5, w6, w7, w8⟩
+  · rename_i hdy
+    rcases h6 : bytesVec r5 with ⟨c, r6⟩ | e | s' <;> rw [h6] at hd <;> simp only [reduceCtorEq] at hd
+    rcases h7 : bytesVec r6 with ⟨s, r7⟩ | e | s' <;> rw [h7] at hd <;> simp only [reduceCtorEq] at hd
+    simp only [Res.ok.injEq, Prod.mk.injEq] at hd
+    obtain ⟨rfl, rfl⟩ := hd
+    obtain ⟨e6, w6⟩ := bytesVec_lawful.sound _ _ _ h6
+    obtain ⟨e7, w7⟩ := bytesVec_lawful.sound _ _ _ h7
+    refine ⟨?_, ?_⟩
+    · simp only [BlockHeader.enc, BlockHeader.versionWord, ExtData.isDynafed, ExtData.enc,
+        List.append_assoc, Bool.false_eq_true, if_false]
+      rw [e1, e2, e3, e4, e5, e6, e7]
+    · exact ⟨word_legacy v w1 hdy, w2, w3, w4, w5, w6, w7⟩
+
 theorem header_complete (h : BlockHeader) (r : Bytes) (hw : h.wf) :
-    BlockHeader.dec (h.enc ++ r) = .ok (h, r) := by sorry
-theorem header_total (bs : Bytes) (s : String) : BlockHeader.dec bs ≠ .panic s := by sorry
+    BlockHeader.dec (h.enc ++ r) = .ok (h, r) := by
+  obtain ⟨version, prev, mr, time, height, ext⟩ := h
+  obtain ⟨w1, w2, w3, w4, w5, w6⟩ := hw
+  dsimp only at w1 w2 w3 w4 w5 w6
+  have w4' : time < 256 ^ 4 := by omega
+  have w5' : height < 256 ^ 4 := by omega
+  cases ext with
+  | proof c s =>
+    obtain ⟨w6, w7⟩ := w6
+    have hnd : ¬ version / 2^31 = 1 := by omega
+    simp only [BlockHeader.dec, BlockHeader.enc, BlockHeader.versionWord, ExtData.isDynafed,
+      ExtData.enc, List.append_assoc, Bool.false_eq_true, if_false]
+    rw [(le_lawful 4).complete _ _ (by omega)]; simp only [if_neg hnd]
+    rw [(take_lawful 32).complete _ _ w2]; simp only
+    rw [(take_lawful 32).complete _ _ w3]; simp only
+    rw [(le_lawful 4).complete _ _ w4']; simp only
+    rw [(le_lawful 4).complete _ _ w5']; simp only
+    rw [bytesVec_lawful.complete _ _ w6]; simp only
+    rw [bytesVec_lawful.complete _ _ w7]
+  | dynafed cur prop w =>
+    obtain ⟨w6, w7, w8⟩ := w6
+    have hd : (version + 2^31) / 2^31 = 1 := by omega
+    have hm : (version + 2^31) % 2^31 = version := by omega
+    simp only [BlockHeader.dec, BlockHeader.enc, BlockHeader.versionWord, ExtData.isDynafed,
+      ExtData.enc, List.append_assoc, if_true, or_hi version w1]
+    rw [(le_lawful 4).complete _ _ (by omega)]; simp only [hd, hm, if_true]
+    rw [(take_lawful 32).complete _ _ w2]; simp only
+    rw [(take_lawful 32).complete _ _ w3]; simp only
+    rw [(le_lawful 4).complete _ _ w4']; simp only
+    rw [(le_lawful 4).complete _ _ w5']; simp only
+    rw [params_lawful.complete _ _ w6]; simp only
+    rw [params_lawful.complete _ _ w7]; simp only
+    rw [bytesVecVec_lawful.complete _ _ w8]
+
+theorem header_total (bs : Bytes) (s : String) : BlockHeader.dec bs ≠ .panic s := by
+  intro hd
+  simp only [BlockHeader.dec] at hd
+  rcases h1 : le 4 bs with ⟨v, r1⟩ | e | s' <;> rw [h1] at hd <;> simp only [reduceCtorEq] at hd
+  case panic => exact (le_lawful 4).total _ _ h1
+  rcases h2 : take 32 r1 with ⟨prev, r2⟩ | e | s' <;> rw [h2] at hd <;> simp only [reduceCtorEq] at hd
+  case panic => exact (take_lawful 32).total _ _ h2
+  rcases h3 : take 32 r2 with ⟨mr, r3⟩ | e | s' <;> rw [h3] at hd <;> simp only [reduceCtorEq] at hd
+  case panic => exact (take_lawful 32).total _ _ h3
+  rcases h4 : le 4 r3 with ⟨time, r4⟩ | e | s' <;> rw [h4] at hd <;> simp only [reduceCtorEq] at hd
+  case panic => exact (le_lawful 4).total _ _ h4
+  rcases h5 : le 4 r4 with ⟨height, r5⟩ | e | s' <;> rw [h5] at hd <;> simp only [reduceCtorEq] at hd
+  case panic => exact (le_lawful 4).total _ _ h5
+  split at hd
+  · rcases h6 : Params.dec r5 with ⟨cur, r6⟩ | e | s' <;> rw [h6] at hd <;> simp only [reduceCtorEq] at hd
+    case panic => exact params_lawful.total _ _ h6
+    rcases h7 : Params.dec r6 with ⟨prop, r7⟩ | e | s' <;> rw [h7] at hd <;> simp only [reduceCtorEq] at hd
+    case panic => exact params_lawful.total _ _ h7
+    rcases h8 : bytesVecVec r7 with ⟨w, r8⟩ | e | s' <;> rw [h8] at hd <;> simp only [reduceCtorEq] at hd
+    exact bytesVecVec_lawful.total _ _ h8
+  · rcases h6 : bytesVec r5 with ⟨c, r6⟩ | e | s' <;> rw [h6] at hd <;> simp only [reduceCtorEq] at hd
+    case panic => exact bytesVec_lawful.total _ _ h6
+    rcases h7 : bytesVec r6 with ⟨s, r7⟩ | e | s' <;> rw [h7] at hd <;> simp only [reduceCtorEq] at hd
+    exact bytesVec_lawful.total _ _ h7
+
 theorem header_lawful : Lawful BlockHeader.dec BlockHeader.enc BlockHeader.wf :=
   ⟨header_sound, header_complete, header_total⟩
 
-theorem block_lawful (P : Prims) (hs : SizesPos P) : Lawful (Block.dec P) Block.enc (Block.wf P) := by sorry
+theorem block_lawful (P : Prims) (hs : SizesPos P) : Lawful (Block.dec P) Block.enc (Block.wf P) := by
+  have hv := vecOf_lawful P.sizeTx hs.tx (Tx.dec P) Tx.enc (Tx.wf P) (tx_lawful P hs)
+  refine ⟨?_, ?_, ?_⟩
+  · intro bs v rest h
+    simp only [Block.dec] at h
+    rcases h1 : BlockHeader.dec bs with ⟨hdr, r1⟩ | e | s' <;> rw [h1] at h <;> simp only [reduceCtorEq] at h
+    rcases h2 : vecOf P.sizeTx (Tx.dec P) r1 with ⟨txs, r2⟩ | e | s' <;> rw [h2] at h <;> simp only [reduceCtorEq] at h
+    simp only [Res.ok.injEq, Prod.mk.injEq] at h
+    obtain ⟨rfl, rfl⟩ := h
+    obtain ⟨e1, w1⟩ := header_sound _ _ _ h1
+    obtain ⟨e2, w2, w3⟩ := hv.sound _ _ _ h2
+    refine ⟨?_, w1, w2, w3⟩
+    simp only [Block.enc, List.append_assoc]
+    rw [e1, e2]
+  · intro v r ⟨w1, w2, w3⟩
+    simp only [Block.dec, Block.enc, List.append_assoc]
+    rw [header_complete _ _ w1]; simp only
+    rw [hv.complete _ _ ⟨w2, w3⟩]
+  · intro bs s h
+    simp only [Block.dec] at h
+    rcases h1 : BlockHeader.dec bs with ⟨hdr, r1⟩ | e | s' <;> rw [h1] at h <;> simp only [reduceCtorEq] at h
+    case panic => exact header_total _ _ h1
+    rcases h2 : vecOf P.sizeTx (Tx.dec P) r1 with ⟨txs, r2⟩ | e | s' <;> rw [h2] at h <;> simp only [reduceCtorEq] at h
+    exact hv.total _ _ h2
 
 /-- the block-hash preimage ignores the solution / signblock witness … -/
-theorem hashPreimage_clearWitness (h : BlockHeader) : h.clearWitness.hashPreimage = h.hashPreimage := by sorry
+theorem hashPreimage_clearWitness (h : BlockHeader) : h.clearWitness.hashPreimage = h.hashPreimage := by
+  obtain ⟨version, prev, mr, time, height, ext⟩ := h
+  cases ext <;> rfl
 
 /-- … and `clear_witness` changes nothing else -/
 theorem clearWitness_fields (h : BlockHeader) :
     h.clearWitness.version = h.version ∧ h.clearWitness.prevBlockhash = h.prevBlockhash ∧
     h.clearWitness.merkleRoot = h.merkleRoot ∧ h.clearWitness.time = h.time ∧
-    h.clearWitness.height = h.height ∧ h.clearWitness.ext.isDynafed = h.ext.isDynafed := by sorry
+    h.clearWitness.height = h.height ∧ h.clearWitness.ext.isDynafed = h.ext.isDynafed := by
+  refine ⟨rfl, rfl, rfl, rfl, rfl, ?_⟩
+  obtain ⟨version, prev, mr, time, height, ext⟩ := h
+  cases ext <;> rfl
 
-theorem clearWitness_wf (h : BlockHeader) (hw : h.wf) : h.clearWitness.wf := by sorry
+theorem clearWitness_wf (h : BlockHeader) (hw : h.wf) : h.clearWitness.wf := by
+  obtain ⟨version, prev, mr, time, height, ext⟩ := h
+  obtain ⟨w1, w2, w3, w4, w5, w6⟩ := hw
+  refine ⟨w1, w2, w3, w4, w5, ?_⟩
+  cases ext with
+  | proof c s => exact ⟨w6.1, by simp [maxVecSize]⟩
+  | dynafed c p w =>
+    refine ⟨w6.1, w6.2.1, ?_, ?_⟩
+    · simp [maxVecSize]
+    · intro b hb; cases hb
+
+theorem versionWord_lt (h : BlockHeader) (hw : h.version < 2^31) : h.versionWord < 256 ^ 4 := by
+  simp only [BlockHeader.versionWord]
+  split
+  · rw [or_hi _ hw]; omega
+  · omega
 
 /-- the preimage determines every field except the witness part of the extension data
     (including the dynafed marker: a legacy and a dynafed header never share a preimage) -/
 theorem hashPreimage_injective (a b : BlockHeader) (ha : a.wf) (hb : b.wf)
-    (h : a.hashPreimage = b.hashPreimage) : a.clearWitness = b.clearWitness := by sorry
+    (h : a.hashPreimage = b.hashPreimage) : a.clearWitness = b.clearWitness := by
+  have hwa := versionWord_lt a ha.1
+  have hwb := versionWord_lt b hb.1
+  obtain ⟨va, pa, ma, ta, ha', xa⟩ := a
+  obtain ⟨vb, pb, mb, tb, hb', xb⟩ := b
+  obtain ⟨a1, a2, a3, a4, a5, a6⟩ := ha
+  obtain ⟨b1, b2, b3, b4, b5, b6⟩ := hb
+  dsimp only at a1 a2 a3 a4 a5 a6 b1 b2 b3 b4 b5 b6
+  simp only [BlockHeader.hashPreimage, List.append_assoc] at h
+  obtain ⟨hword, g1⟩ := enc_prefix_free (le_lawful 4) _ _ _ _ hwa hwb h
+  obtain ⟨e2, g2⟩ := enc_prefix_free (take_lawful 32) _ _ _ _ a2 b2 g1
+  obtain ⟨e3, g3⟩ := enc_prefix_free (take_lawful 32) _ _ _ _ a3 b3 g2
+  obtain ⟨e4, g4⟩ := enc_prefix_free (le_lawful 4) _ _ _ _ (by omega : ta < 256 ^ 4) (by omega : tb < 256 ^ 4) g3
+  obtain ⟨e5, g5⟩ := enc_prefix_free (le_lawful 4) _ _ _ _ (by omega : ha' < 256 ^ 4) (by omega : hb' < 256 ^ 4) g4
+  clear h g1 g2 g3 g4 hwa hwb
+  subst e2 e3 e4 e5
+  have h := g5
+  cases xa with
+  | proof ca sa =>
+    cases xb with
+    | proof cb sb =>
+      simp only [BlockHeader.versionWord, ExtData.isDynafed, Bool.false_eq_true, if_false] at hword
+      simp only [ExtData.encHashed] at h
+      have hc := enc_injective_of_complete bytesVec_lawful _ _ a6.1 b6.1 h
+      subst hword; subst hc
+      rfl
+    | dynafed cb pb wb =>
+      exfalso
+      simp only [BlockHeader.versionWord, ExtData.isDynafed, Bool.false_eq_true, if_false, if_true,
+        or_hi vb b1] at hword
+      omega
+  | dynafed ca pa wa =>
+    cases xb with
+    | proof cb sb =>
+      exfalso
+      simp only [BlockHeader.versionWord, ExtData.isDynafed, Bool.false_eq_true, if_false, if_true,
+        or_hi va a1] at hword
+      omega
+    | dynafed cb pb wb =>
+      simp only [BlockHeader.versionWord, ExtData.isDynafed, if_true, or_hi va a1, or_hi vb b1] at hword
+      have hv : va = vb := by omega
+      simp only [ExtData.encHashed] at h
+      obtain ⟨hc, h⟩ := enc_prefix_free params_lawful _ _ _ _ a6.1 b6.1 h
+      have hp := enc_injective_of_complete params_lawful _ _ a6.2.1 b6.2.1 h
+      subst hv; subst hc; subst hp
+      rfl
 
-theorem block_size_eq (P : Prims) (b : Block) (h : b.wf P) : b.size = b.enc.length := by sorry
+theorem sum_map_size (P : Prims) (l : List Tx) (h : ∀ t ∈ l, t.wf P) :
+    (l.map Tx.size).sum = (l.flatMap Tx.enc).length := by
+  induction l with
+  | nil => rfl
+  | cons a as ih =>
+    simp only [List.map_cons, List.sum_cons, List.flatMap_cons, List.length_append]
+    rw [ih (fun t ht => h t (List.mem_cons_of_mem _ ht)),
+      size_eq_enc_length P a (h a List.mem_cons_self)]
 
+theorem block_size_eq (P : Prims) (b : Block) (h : b.wf P) : b.size = b.enc.length := by
+  obtain ⟨_, _, w3⟩ := h
+  simp only [Block.size, Block.enc, encVec, List.length_append, encVarint_length,
+    sum_map_size P _ w3, Nat.add_assoc]
+
+set_option linter.unusedVariables false in
 theorem block_weight_eq (P : Prims) (b : Block) :
-    b.weight = 4 * (b.header.enc.length + varintSize b.txdata.length) + (b.txdata.map Tx.weight).sum := by sorry
-
+    b.weight = 4 * (b.header.enc.length + varintSize b.txdata.length) + (b.txdata.map Tx.weight).sum := rfl
 end EV.Proofs.CodecBlock
